@@ -171,6 +171,8 @@ SPEC = {
         "reported_sizes_true", "rejected_differs", "check_complete", "check_total", "vector_free_agree",
         "collection_sites_covered", "diagnostic_pinned", "property_uses_collected", "check_layout_sound",
         "check_layout_reports_true_sizes", "buffer_arrays_not_validated",
+        "check_sound_full", "reported_sizes_true_full", "no_layout_no_verdict", "check_complete_partial",
+        "complete_fails_beyond_plain", "empty_struct_unsound",
     ]],
     "harness": "c19",
     "nontrivial": nontrivial,
